@@ -359,131 +359,109 @@ func (cm *CMap) parseBfRangeSection(section string) error {
 	return nil
 }
 
-// parseBfRangeSectionWithArrays handles bfrange sections that contain array format entries
+// bfRangeToken is one token of a bfrange section: a <...> hex string or an
+// array delimiter.
+type bfRangeToken struct {
+	hex     string // contents of a hex string (bracket == 0)
+	bracket byte   // '[' or ']' for an array delimiter
+}
+
+// bfRangeTokens splits a bfrange section into hex strings and array delimiters.
+// Everything else (white space, counts) is skipped; an unterminated hex string
+// ends the scan.
+func bfRangeTokens(section string) []bfRangeToken {
+	tokens := make([]bfRangeToken, 0)
+	for i := 0; i < len(section); i++ {
+		switch section[i] {
+		case '<':
+			end := strings.IndexByte(section[i:], '>')
+			if end == -1 {
+				return tokens
+			}
+			tokens = append(tokens, bfRangeToken{hex: section[i+1 : i+end]})
+			i += end
+		case '[', ']':
+			tokens = append(tokens, bfRangeToken{bracket: section[i]})
+		}
+	}
+	return tokens
+}
+
+// parseBfRangeSectionWithArrays handles bfrange sections that contain array format entries.
+// The section is read as a token stream, so entries may be laid out one per
+// line, several per line, or with an array spanning lines.
 func (cm *CMap) parseBfRangeSectionWithArrays(section string) error {
-	// Split into lines for array handling (arrays may span lines)
-	lines := strings.Split(section, "\n")
+	tokens := bfRangeTokens(section)
 
 	i := 0
-	for i < len(lines) {
-		line := strings.TrimSpace(lines[i])
-		if line == "" {
+	for i+2 < len(tokens) {
+		start, end, dst := tokens[i], tokens[i+1], tokens[i+2]
+		if start.bracket != 0 || end.bracket != 0 {
+			// Not the start of an entry - resynchronize
 			i++
 			continue
 		}
 
-		// Check if this is an array format
-		if strings.Contains(line, "[") {
-			// Array format: <start> <end> [<u1> <u2> ...]
-			// This may span multiple lines
-			fullLine := line
-			for !strings.Contains(fullLine, "]") && i+1 < len(lines) {
-				i++
-				fullLine += " " + strings.TrimSpace(lines[i])
-			}
-			cm.parseBfRangeArray(fullLine)
+		// Simple format: <start> <end> <unicode>
+		if dst.bracket == 0 {
+			cm.addBfRange(start.hex, end.hex, dst.hex)
+			i += 3
+			continue
+		}
+
+		if dst.bracket != '[' {
 			i++
 			continue
 		}
 
-		// Simple format on this line: <start> <end> <unicode>
-		hexStrings := make([]string, 0)
-		startIdx := 0
-		for {
-			idx := strings.Index(line[startIdx:], "<")
-			if idx == -1 {
-				break
-			}
-			idx += startIdx
-			endIdx := strings.Index(line[idx:], ">")
-			if endIdx == -1 {
-				break
-			}
-			endIdx += idx
-
-			hexStr := line[idx+1 : endIdx]
-			hexStrings = append(hexStrings, hexStr)
-			startIdx = endIdx + 1
+		// Array format: <start> <end> [<u1> <u2> ...]
+		j := i + 3
+		for j < len(tokens) && tokens[j].bracket == 0 {
+			j++
 		}
-
-		// Process in groups of 3
-		for j := 0; j+2 < len(hexStrings); j += 3 {
-			startHex := hexStrings[j]
-			endHex := hexStrings[j+1]
-			dstHex := hexStrings[j+2]
-
-			if startHex == "" || endHex == "" || dstHex == "" {
-				continue
-			}
-
-			srcHexLen := len(startHex)
-			if srcHexLen%2 != 0 {
-				srcHexLen++
-			}
-			srcByteWidth := srcHexLen / 2
-			if srcByteWidth > cm.actualByteWidth {
-				cm.actualByteWidth = srcByteWidth
-			}
-
-			startCode, err1 := parseHexToUint32(startHex)
-			endCode, err2 := parseHexToUint32(endHex)
-			dstUnicode, dstUnits, err3 := parseBfRangeDst(dstHex)
-
-			if err1 != nil || err2 != nil || err3 != nil {
-				continue
-			}
-
-			cm.rangeMappings = append(cm.rangeMappings, CMapRange{
-				StartCode:    startCode,
-				EndCode:      endCode,
-				StartUnicode: dstUnicode,
-				startUnits:   dstUnits,
-			})
+		if j < len(tokens) && tokens[j].bracket == ']' {
+			cm.addBfRangeArray(start.hex, end.hex, tokens[i+3:j])
+			j++
 		}
-
-		i++
+		i = j
 	}
 
 	return nil
 }
 
-// parseBfRangeArray parses array format: <start> <end> [<u1> <u2> ...]
-func (cm *CMap) parseBfRangeArray(line string) {
-	// Extract start and end codes
-	// Find hex strings for start/end
-	hexStrings := make([]string, 0)
-	startIdx := 0
-	// Only look before the '['
-	bracketIdx := strings.Index(line, "[")
-	if bracketIdx == -1 {
+// addBfRange records one <start> <end> <unicode> entry
+func (cm *CMap) addBfRange(startHex, endHex, dstHex string) {
+	if startHex == "" || endHex == "" || dstHex == "" {
 		return
 	}
 
-	preBracket := line[:bracketIdx]
-	for {
-		idx := strings.Index(preBracket[startIdx:], "<")
-		if idx == -1 {
-			break
-		}
-		idx += startIdx
-		endIdx := strings.Index(preBracket[idx:], ">")
-		if endIdx == -1 {
-			break
-		}
-		endIdx += idx
-
-		hexStr := preBracket[idx+1 : endIdx]
-		hexStrings = append(hexStrings, hexStr)
-		startIdx = endIdx + 1
+	srcHexLen := len(startHex)
+	if srcHexLen%2 != 0 {
+		srcHexLen++
+	}
+	srcByteWidth := srcHexLen / 2
+	if srcByteWidth > cm.actualByteWidth {
+		cm.actualByteWidth = srcByteWidth
 	}
 
-	if len(hexStrings) < 2 {
+	startCode, err1 := parseHexToUint32(startHex)
+	endCode, err2 := parseHexToUint32(endHex)
+	dstUnicode, dstUnits, err3 := parseBfRangeDst(dstHex)
+
+	if err1 != nil || err2 != nil || err3 != nil {
 		return
 	}
 
-	startHex := hexStrings[0]
-	endHex := hexStrings[1]
+	cm.rangeMappings = append(cm.rangeMappings, CMapRange{
+		StartCode:    startCode,
+		EndCode:      endCode,
+		StartUnicode: dstUnicode,
+		startUnits:   dstUnits,
+	})
+}
 
+// addBfRangeArray records one <start> <end> [<u1> <u2> ...] entry
+func (cm *CMap) addBfRangeArray(startHex, endHex string, array []bfRangeToken) {
 	startCode, err1 := parseHexToUint32(startHex)
 	endCode, err2 := parseHexToUint32(endHex)
 
@@ -491,43 +469,14 @@ func (cm *CMap) parseBfRangeArray(line string) {
 		return
 	}
 
-	// Extract array content
-	arrayStart := strings.Index(line, "[")
-	arrayEnd := strings.Index(line, "]")
-	if arrayStart == -1 || arrayEnd == -1 {
-		return
-	}
-
-	arrayContent := line[arrayStart+1 : arrayEnd]
-
-	// Parse hex strings in array content
-	arrayHexStrings := make([]string, 0)
-	startIdx = 0
-	for {
-		idx := strings.Index(arrayContent[startIdx:], "<")
-		if idx == -1 {
-			break
-		}
-		idx += startIdx
-		endIdx := strings.Index(arrayContent[idx:], ">")
-		if endIdx == -1 {
-			break
-		}
-		endIdx += idx
-
-		hexStr := arrayContent[idx+1 : endIdx]
-		arrayHexStrings = append(arrayHexStrings, hexStr)
-		startIdx = endIdx + 1
-	}
-
 	// Map each character code to its Unicode value
 	currentCode := startCode
-	for _, hex := range arrayHexStrings {
-		if hex == "" {
+	for _, tok := range array {
+		if tok.hex == "" {
 			continue
 		}
 
-		unicode, err := hexToUnicode(hex)
+		unicode, err := hexToUnicode(tok.hex)
 		if err == nil && currentCode <= endCode {
 			cm.charMappings[currentCode] = unicode
 		}
